@@ -50,7 +50,7 @@ CHECKS = {
    note="Uses the runtime model of C02.",
    technique="exhaustive small-tree enumeration, behavioural oracle from find's rules"),
  "C10": dict(
-   text="Random multisets of output actions in operator trees and chains of up to 300 destinations: mode choice against the specification-side rule, destination table = bijection with the requested (destination, terminator) pairs, every byte of the executed policy inside a frame whose tag maps to the producing action's pair.",
+   text="Random multisets of output actions in operator trees, chains of up to 300 destinations, every number 0..72 of matchers before the printers and tens of thousands of them (printer numbers around 0xD800): mode choice against the specification-side rule, destination table = bijection with the requested (destination, terminator) pairs, every byte of the executed policy inside a frame whose tag maps to the producing action's pair.",
    ref="DESIGN.md section 4, C10",
    note="Known finding F13 (-print-file-fid bypasses frames) is excluded by signature and reported as KNOWN-FINDING.",
    technique="proptest-generated programs, frame decoder + reference evaluator, invariant over the destination table"),
